@@ -333,9 +333,9 @@ func init() {
 		Rule:        "BFS over Open (3 handle slots) / Open with one injected file-system fault (MkdirAll, OpenFile(LOCK), WriteString, ReadDir #1, ReadDir #2) / foreign LOCK appearing and disappearing (= another process) / Close (open or already closed handle) / Add+Rotate on an open handle, on the real store over the in-memory file system under the controlled scheduler; after every transition: Open succeeds iff the directory is unowned, a failed Open leaves the directory image byte-for-byte unchanged (no lock left behind, an existing lock not removed), Close releases the lock, second Close fails and changes nothing, LOCK present iff owned, never two open handles, and EVERY public method on EVERY closed handle fails, changes nothing and does not panic/deadlock. Concurrent scenarios (Open||Open, Close||Open, Close||Close, Close||use) are explored by the schedmc shards. Non-trivial = distinct (state, closed handle, method) use-after-close evaluations.",
 		Assumptions: []string{"'another process' is represented by a LOCK file already present", "unreadable/unlistable directory is produced by fault injection in the file-system seam (root ignores permission bits)"},
 		Shards: func(tier string) []vShard {
-			depth := 5
+			depth := 8
 			if tier == "thorough" {
-				depth = 7
+				depth = 10
 			}
 			sh := []vShard{{Name: "sequential", Run: func(c *vCtx) {
 				s := &vC17Sys{c: c, cfgS: "c17 sequential"}
